@@ -908,7 +908,7 @@ func c18Scripts(ctx *Ctx, volume bool) []c18Script {
 	for k := 0; k < n; k++ {
 		r := ctx.Rand.Fork()
 		acts := []c18Action{cl("init", "", 0)}
-		ids := []string{"1"}
+		ids := []string{hx.Pick(r, []string{"1", "1", "a\"b", "x\\y", "n\nl"})} // the id is any string the client likes
 		if r.Chance(1, 3) {
 			ids = append(ids, "2")
 		}
